@@ -120,21 +120,46 @@ def run_table(p, amts):
     rows = [(us[a], us[b], O.dec(f), O.dec(o)) for a, b, f, o in table]
     if form == 'mapping':
         conv = TableConverter({(r[0], r[1]): (r[2], r[3]) for r in rows})
+        cls.register_converter(conv)
+    elif form == 'two':
+        # the rows are spread over two converters: the first row in the
+        # older one, the rest in the newer one -- a pair only the older
+        # table knows must still convert
+        cls.register_converter(TableConverter(rows[:1]))
+        cls.register_converter(TableConverter({(r[0], r[1]): (r[2], r[3])
+                                               for r in rows[1:]}))
     else:
         conv = TableConverter(rows)
-    cls.register_converter(conv)
+        cls.register_converter(conv)
     model = {(a, b): (O.val(f), O.val(o)) for a, b, f, o in table}
+    if form == 'two':
+        # most recent converter first; the first that answers wins
+        newer = {(a, b): (O.val(f), O.val(o)) for a, b, f, o in table[1:]}
+        older = {(a, b): (O.val(f), O.val(o)) for a, b, f, o in table[:1]}
+
+    def one_table(m, a, b, x):
+        if (a, b) in m:
+            f, o = m[(a, b)]
+            return x * f + o
+        if (b, a) in m:
+            f, o = m[(b, a)]
+            return (x - o) / f
+        return None
 
     def expected(a, b, x):
         if a == b:
             return x
-        if (a, b) in model:
-            f, o = model[(a, b)]
-            return x * f + o
-        if (b, a) in model:
-            f, o = model[(b, a)]
-            return (x - o) / f
-        return None
+        if form == 'two':
+            r = one_table(newer, a, b, x)
+            return r if r is not None else one_table(older, a, b, x)
+        return one_table(model, a, b, x)
+
+    def direction(a, b):
+        if form == 'two':
+            m = newer if one_table(newer, a, b, F(1)) is not None else older
+        else:
+            m = model
+        return 'forward' if (a, b) in m else 'reverse'
     for a in UNITS:
         for b in UNITS:
             for code in amts:
@@ -163,12 +188,17 @@ def run_table(p, amts):
                                          f"{type(err).__name__ if err else r!r}",
                                          case)
                         # equality across unconvertible units is False
-                        if (q == cls(h, us[b])) is not False:
+                        try:
+                            eqv = q == cls(h, us[b])
+                        except Exception as exc:
+                            eqv = type(exc).__name__
+                        if eqv is not False:
                             st.violation('C14:table:eq-missing',
-                                         f"{case}: == is not False", case)
+                                         f"{case}: == gives {eqv}, expected "
+                                         "False", case)
                         continue
-                    st.outcomes['forward' if (a, b) in model else
-                                'identity' if a == b else 'reverse'] += 1
+                    st.outcomes['identity' if a == b else
+                                direction(a, b)] += 1
                     if err is not None:
                         st.violation('C14:table:raises', f"{case}: "
                                      f"{type(err).__name__}: {err}", case)
@@ -177,7 +207,7 @@ def run_table(p, amts):
                             isinstance(r.amount, float) or \
                             not O.is_exact(r.amount) or \
                             O.fr(r.amount) != want:
-                        kind = 'forward' if (a, b) in model else 'reverse'
+                        kind = direction(a, b) if a != b else 'identity'
                         st.violation(f'C14:table:{kind}',
                                      f"{case}: got {r!r}, expected {want}",
                                      case)
@@ -185,7 +215,7 @@ def run_table(p, amts):
                     # round trip: identical amount when the way back uses
                     # the same row
                     back = expected(b, a, want)
-                    if back is not None and a != b and \
+                    if back is not None and a != b and form != 'two' and \
                             ((a, b) in model) != ((b, a) in model):
                         try:
                             r2 = r.convert(us[a])
@@ -305,6 +335,7 @@ def run(tier, seed):
             seen.add(k)
             uniq.append(t)
     parts = [(t, form) for t in uniq for form in ('mapping', 'list')]
+    parts += [(t, 'two') for t in uniq if len(t) >= 2]
     uamts = ['i:0', 'i:7', 'D:-2.5', 'F:1/3', 'i:32', 'D:0.1', 'F:-1/3']
     total.merge(pmap(run_table, parts, (uamts,), fresh=True))
     total.sample({'table': uniq[len(uniq) // 2], 'form': 'list',
